@@ -366,6 +366,9 @@ def ev_Call(n, c):
             return id(v) not in c.pre_ids and not isinstance(v, (str, int, bool, type(None)))
         if f == "allocated":
             return True
+        if f == "existed":
+            v = ev(n.args[0], c)
+            return id(canon(v, c)) in c.pre_ids or isinstance(v, (str, int, bool, type(None)))
         if f == "unchanged":
             a = n.args[0]
             if isinstance(a, ast.Constant):
@@ -378,6 +381,17 @@ def ev_Call(n, c):
             finally:
                 c.in_old = saved
             return cur == old
+        if f == "content_unchanged":
+            cur = ev(n.args[0], c)
+            saved = c.in_old
+            c.in_old = True
+            try:
+                old = ev(n.args[0], c)
+            finally:
+                c.in_old = saved
+            if isinstance(cur, dict):
+                return list(cur.keys()) == list(old.keys()) and all(canon(cur[k_], c) is canon(old[k_], c) or cur[k_] == old[k_] for k_ in cur)
+            return len(cur) == len(old) and all(canon(a_, c) is canon(b_, c) or a_ == b_ for a_, b_ in zip(cur, old))
         if f == "isstr":
             return isinstance(ev(n.args[0], c), str)
         if f == "isint":
